@@ -252,3 +252,22 @@ Example pinned_leg_points :
   map (fun e => length (snd e)) (t_hide_holistic pinned_tables) = [10; 10].
 Proof. exact C11_Examples.pinned_leg_points. Qed.
 Print Assumptions pinned_leg_points.
+
+(* ---------- class structure of the current source: overrides and attribute hooks (proofs/ClassesTie.v) ---------- *)
+Require Import ClassesTie.
+Theorem C11_tie_class_numpy_body : over_numpy_body = Some exp_over_numpy_body.
+Proof. exact over_numpy_body_tie. Qed.
+Print Assumptions C11_tie_class_numpy_body.
+Theorem C11_tie_class_torch_body : over_torch_body = Some exp_over_torch_body.
+Proof. exact over_torch_body_tie. Qed.
+Print Assumptions C11_tie_class_torch_body.
+Theorem C11_tie_class_tf_body : over_tf_body = Some exp_over_tf_body.
+Proof. exact over_tf_body_tie. Qed.
+Print Assumptions C11_tie_class_tf_body.
+Theorem C11_tie_class_subclasses : subclasses = exp_subclasses.
+Proof. exact subclasses_tie. Qed.
+Print Assumptions C11_tie_class_subclasses.
+Theorem C11_tie_class_attr_hooks : Gen_Classes.attr_hooks = exp_attr_hooks.
+Proof. exact attr_hooks_tie. Qed.
+Print Assumptions C11_tie_class_attr_hooks.
+
